@@ -1,5 +1,5 @@
 """C01 — well-formed encodings decode to exactly the field-by-field event sequence (strict mode)."""
-from checks import decoder_units as D
+from checks import decoder_units as D, conformance
 from checks.decoder_common import run_property
 
 SEED = [0]
@@ -7,7 +7,7 @@ SEED = [0]
 
 def jobs(tier):
     m = ("strict",)
-    return D.g_dispatch(m) + D.g_structs(m) + D.g_arrays(m) + D.g_frames(m) + D.g_leaf(m, deep=1) + D.g_typed(("INT", "VALID")) + D.g_crosscheck(tier, SEED[0])
+    return D.g_dispatch(m) + D.g_structs(m) + D.g_arrays(m) + D.g_frames(m) + D.g_leaf(m, deep=1) + D.g_typed(("INT", "VALID")) + D.g_crosscheck(tier, SEED[0]) + conformance.jobs(tier, SEED[0]) + [(D.unit_canaries, ())]
 
 
 def keep(name, ob):
